@@ -217,6 +217,29 @@ def work_sm(item, res):
                       sig=core.digest(["B-sm", v[0]]), note=v[0])
 
 
+def work_sm2(item, res):
+    """the same Terminal object decodes two sync-manager categories one
+    after the other (initialize twice, gentle_initialize then initialize,
+    a terminal swapped for another one): what it holds afterwards must be
+    what the second category says, whatever the first one said"""
+    _, first, seq, seed = item
+    term = Terminal(None)
+    term.parse_sync_managers(coe.sm_category(sm_entries(first, seed + 1)))
+    entries = sm_entries(seq, seed)
+    term.parse_sync_managers(coe.sm_category(entries))
+    res.count("evaluations")
+    res.nontrivial.add(core.digest(["B-sm2", first, seq]))
+    res.outcomes.add(("B-sm2", len(set(first)), len(set(seq)),
+                      bool(term.has_mailbox())))
+    v = judge_sm(term, entries)
+    if v:
+        res.violation(dict(part="B-sm2", first=list(first), seq=list(seq),
+                           seed=seed), v[1], v[2],
+                      sig=core.digest(["B-sm2", v[0]]),
+                      note=v[0] + " (after an earlier decode on the same "
+                      "Terminal object)")
+
+
 # entry kinds of a PDO: (name, index != 0, bits or None = pad to alignment)
 KINDS = ["b1", "b2", "pad", "pad1", "u8", "u16", "u32", "u64"]
 # gaps (index 0) of 1..16 bits that do or do not realign to a byte boundary,
@@ -525,7 +548,7 @@ def pdo_shapes(max_entries, max_pdos, kinds=KINDS):
 
 
 def work(item, res):
-    {"A": work_read, "sm": work_sm, "pdo": work_pdo,
+    {"A": work_read, "sm": work_sm, "sm2": work_sm2, "pdo": work_pdo,
      "C": work_chain}[item[0]](item, res)
 
 
@@ -551,6 +574,15 @@ def items(ctx):
     for k in range(5):
         for seq in itertools.product(MODES, repeat=k):
             out.append(("sm", seq, seed))
+    # the same object used twice: every pair of sequences of <= 2 (quick)
+    # / <= 3 areas
+    kmax = 2 if ctx.quick else 3
+    seqs = [q for k in range(kmax + 1)
+            for q in itertools.product(MODES, repeat=k)]
+    for first in seqs:
+        for seq in seqs:
+            if first != seq:
+                out.append(("sm2", first, seq, seed))
     shapes = list(pdo_shapes(2 if ctx.quick else 3, 2))
     have = set(shapes)
     # the wider alphabet (more gap widths, 3/4-bit fields): pairs of PDOs
@@ -644,6 +676,8 @@ def replay(ctx, rep):
             res.violation(c, v[1], v[2], note=v[0])
     elif part == "B-sm":
         work_sm(("sm", tuple(c["seq"]), c["seed"]), res)
+    elif part == "B-sm2":
+        work_sm2(("sm2", tuple(c["first"]), tuple(c["seq"]), c["seed"]), res)
     elif part == "B-pdo":
         work_pdo(("pdo", tuple(tuple(s) for s in c["shape"]),
                   c["unassigned"], c["seed"]), res)
